@@ -126,7 +126,9 @@ search); let the driver handle it (`drvOp b`, either outcome of the write), at r
     with `o`'s ID among `srvLog[p0 .. pos)`, in order (nothing dropped, nothing added, nothing
     reordered);
 (b) if the channel holds a Done `f`, it is the last item, it was read at some position `p1 - 1`, and
-    the channel holds EXACTLY the frames with `o`'s ID among `srvLog[p0 .. p1)`. -/
+    the channel holds EXACTLY the frames with `o`'s ID among `srvLog[p0 .. p1)`.
+(If an Unbind has been written in `pre` the sink is closed and `drvOp true` is not an enabled event — `run` skips
+it; the statement still holds: such a search is never registered and its channel stays empty, `shut_from`.) -/
 theorem C01_complete (N : Nat) (pre post : List Ev) (b : Bool) (i c : Nat) (o : Op) :
     let s0 := run (init N) pre
     let s := run (init N) (pre ++ Ev.drvOp b :: post)
@@ -141,13 +143,22 @@ theorem C01_complete (N : Nat) (pre post : List Ev) (b : Bool) (i c : Nat) (o : 
           ch.items = es ++ [Item.done f] ∧ (∀ it ∈ es, ∃ g, it = .entry g ∧ (g.op = 4 ∨ g.op = 25 ∨ g.op = 19)) ∧
           ch.items.map itemFrame = ((s.srvLog.take p1).drop s0.pos).filter (fun g => g.id == (o.id : Int))) := by
   intro s0 s hd hq ho hc ch hch
-  obtain ⟨hcat, ch2, o2, hc2, hx, ho2, hid, _⟩ := complete_from N pre post b hd hq ho hc
-  have hc2 : s.chans[c]? = some ch2 := hc2
-  rw [hch] at hc2; cases hc2
-  refine ⟨fun hreg => hcat.explicit_open hch hreg, fun f hf => ?_⟩
-  have := hcat.explicit_closed (RouteInv.run N _) hch (by rw [hx]; exact ho2) hf
-  rw [hid] at this
-  exact this
+  by_cases hsk : b = true → s0.sinkClosed = false
+  · obtain ⟨hcat, ch2, o2, hc2, hx, ho2, hid, _⟩ := complete_from N pre post b hd hq ho hc hsk
+    have hc2 : s.chans[c]? = some ch2 := hc2
+    rw [hch] at hc2; cases hc2
+    refine ⟨fun hreg => hcat.explicit_open hch hreg, fun f hf => ?_⟩
+    have := hcat.explicit_closed (RouteInv.run N _) hch (by rw [hx]; exact ho2) hf
+    rw [hid] at this
+    exact this
+  · -- an Unbind has been written before: `drvOp true` is not enabled, the search is never registered, its channel stays empty
+    have hcl : s0.sinkClosed = true := by
+      cases hb : s0.sinkClosed with
+      | true => rfl
+      | false => exact absurd (fun _ => hb) hsk
+    have hshut := shut_from N pre (Ev.drvOp b :: post) hq ho hc hcl
+    refine ⟨fun hreg => absurd hreg (hshut.unreg _), fun f hf => ?_⟩
+    rw [hshut.empty ch hch] at hf; cases hf
 
 /-- (a) of `C01_complete` in the form "every deliverable frame": while the search is registered and
 its receiver alive, the channel's content is exactly the consumed frames from `p0` on that carry the
@@ -162,8 +173,16 @@ theorem C01_complete_classified (N : Nat) (pre post : List Ev) (b : Bool) (i c :
       ch.items.map itemFrame =
         ((s.srvLog.take s.pos).drop s0.pos).filter (fun f => f.id == (o.id : Int) && deliverable f) := by
   intro s0 s hd hq ho hc ch hch hreg hal
-  obtain ⟨hcat, _⟩ := complete_from N pre post b hd hq ho hc
-  exact filter_deliverable (fun it hit => hcat.cls ch it hch hit) ((hcat.explicit_open hch hreg).2 hal)
+  by_cases hsk : b = true → s0.sinkClosed = false
+  · obtain ⟨hcat, _⟩ := complete_from N pre post b hd hq ho hc hsk
+    exact filter_deliverable (fun it hit => hcat.cls ch it hch hit) ((hcat.explicit_open hch hreg).2 hal)
+  · -- after an Unbind the search is never registered
+    have hcl : s0.sinkClosed = true := by
+      cases hb : s0.sinkClosed with
+      | true => rfl
+      | false => exact absurd (fun _ => hb) hsk
+    have hshut := shut_from N pre (Ev.drvOp b :: post) hq ho hc hcl
+    exact absurd hreg (hshut.unreg _)
 
 /-- Completeness as an invariant of every reachable state (start position existentially
 quantified): a search channel whose request the driver has not yet taken off the queue is empty and
@@ -214,7 +233,13 @@ theorem C01_complete_nowrap (N : Nat) (pre post : List Ev) (b : Bool) (i c : Nat
         ch.items.map itemFrame = ((s.srvLog.take s.pos).drop s0.pos).filter (fun f => f.id == (o.id : Int))) ∧
       (∀ (j : Nat) (oj : Op), s.ops[j]? = some oj → Live s j oj → oj.id = o.id → j = i) := by
   intro s0 s hd hq ho hc ch hch hreg
-  obtain ⟨hcat, ch2, o2, hc2, hx, ho2, hid, _⟩ := complete_from N pre post b hd hq ho hc
+  have hsk : b = true → s0.sinkClosed = false := by
+    -- after an Unbind the search is never registered
+    intro _
+    cases hcl : s0.sinkClosed with
+    | false => rfl
+    | true => exact absurd hreg ((shut_from N pre (Ev.drvOp b :: post) hq ho hc hcl).unreg _)
+  obtain ⟨hcat, ch2, o2, hc2, hx, ho2, hid, _⟩ := complete_from N pre post b hd hq ho hc hsk
   have hc2 : s.chans[c]? = some ch2 := hc2
   rw [hch] at hc2; cases hc2
   refine ⟨(hcat.explicit_open hch hreg).2, fun j oj hoj hlive hidj => ?_⟩
